@@ -121,6 +121,19 @@ def gen(streams, tier, i):
             cfg.shuffle(lines)
         version = cfg.choice([None, None, "gfa1", "gfa2"])
         docv = "gfa2"
+    elif cfg.random() < 0.08:
+        # a GFA2 document whose groups are real walks (C17's generator), with every kind of alignment on the
+        # edges: the paths of the API that resolve and convert groups are reached
+        from . import c17
+        lines = list(c17.gen(streams, tier, i)["lines"])
+        dr = streams.get("document")
+        for j, ln in enumerate(lines):
+            f = ln.split("\t")
+            if f[0] == "E" and f[8] == "*":
+                f[8] = dr.choice(["*", "2M", "1M1I1M", ",".join(str(dr.randint(0, 9)) for _ in range(dr.randint(1, 3)))])
+                lines[j] = "\t".join(f)
+        version = cfg.choice([None, None, "gfa2"])
+        docv = "gfa2"
     else:
         doc = G.gen_doc(streams.get("document"), k)
         lines, _m = hist.schedule(streams.get("schedule"), doc["lines"])
@@ -148,7 +161,7 @@ def gen(streams, tier, i):
                           "l.validate_field", "l.get_datatype", "l.set_datatype", "str", "gfa.validate",
                           "add", "names", "l.str", "l.clone", "l.rename", "select", "to_other",
                           "components", "linear_paths", "multiply",
-                          "seg_component", "cut", "to_obj", "l.to_other", "l.diff", "l.refs"])
+                          "seg_component", "cut", "to_obj", "l.to_other", "l.diff", "l.refs", "each.to_other"])
         # graph rewrites on arbitrary (possibly corrupted) graphs -- merge_linear_paths, remove_dead_ends,
         # remove_small_components, group resolution -- take no string argument and are outside C07's
         # quantifier (texts and strings passed to the API); C14/C16/C17 cover them on their own domains
@@ -325,6 +338,14 @@ def api(g, cx, op, st):
         o = cx.call("gfa.is_cut_segment(%r)" % a, g.is_cut_segment, a)
     elif c == "to_obj":
         o = cx.call("gfa.to_gfa1()/to_gfa2()", lambda: (str(g.to_gfa1()), str(g.to_gfa2())))
+    elif c == "each.to_other":
+        # every line converted on its own (the per-line conversion validates at the line's level)
+        o = None
+        for x in list(g.lines):
+            o = cx.call("line.to_gfa1_s", x.to_gfa1_s)
+            o = cx.call("line.to_gfa2_s", x.to_gfa2_s)
+        if o is None:
+            return
     elif c == "groups":
         def f():
             out = []
